@@ -1,2 +1,443 @@
 import DuneVerif.Common.Proto
-def main : IO Unit := DV.runDriver fun _ => "bad-op"
+import DuneVerif.Model.C01
+/-! line-protocol driver for C01 (format: see the head of harness/cxx_c01.cc).
+Runs the model over `Int` (fields Z and D), Gaussian integers (C) and the prime field with 32003 elements (P). -/
+open DV DV.C01
+
+namespace C01Drv
+
+/-! ### the executable scalar types -/
+
+structure GInt where
+  re : Int
+  im : Int
+  deriving DecidableEq
+
+instance : Zero GInt := ⟨⟨0, 0⟩⟩
+instance : Add GInt := ⟨fun a b => ⟨a.re + b.re, a.im + b.im⟩⟩
+instance : Sub GInt := ⟨fun a b => ⟨a.re - b.re, a.im - b.im⟩⟩
+instance : Neg GInt := ⟨fun a => ⟨-a.re, -a.im⟩⟩
+instance : Mul GInt := ⟨fun a b => ⟨a.re * b.re - a.im * b.im, a.re * b.im + a.im * b.re⟩⟩
+/-- exact quotient of Gaussian integers (only used when the divisor divides) -/
+instance : Div GInt := ⟨fun a k =>
+  let den := k.re * k.re + k.im * k.im
+  ⟨(a.re * k.re + a.im * k.im) / den, (a.im * k.re - a.re * k.im) / den⟩⟩
+
+def P : Nat := 32003
+
+structure Fp where
+  v : Nat
+  deriving DecidableEq
+
+def powMod : Nat → Nat → Nat → Nat
+  | 0, _, _ => 1
+  | f+1, b, e =>
+    if e = 0 then 1 else
+    let h := powMod f (b * b % P) (e / 2)
+    if e % 2 = 1 then b * h % P else h
+
+instance : Zero Fp := ⟨⟨0⟩⟩
+instance : Add Fp := ⟨fun a b => ⟨(a.v + b.v) % P⟩⟩
+instance : Sub Fp := ⟨fun a b => ⟨(a.v + P - b.v % P) % P⟩⟩
+instance : Neg Fp := ⟨fun a => ⟨(P - a.v % P) % P⟩⟩
+instance : Mul Fp := ⟨fun a b => ⟨a.v * b.v % P⟩⟩
+instance : Div Fp := ⟨fun a b => ⟨a.v * powMod 20 b.v (P - 2) % P⟩⟩
+
+/-- how a scalar type travels over the line protocol -/
+structure Codec (K : Type) where
+  w : Nat
+  dec : List Int → Option K
+  enc : K → List Int
+  conj : K → K
+  /-- is `a / k` inside the exact-arithmetic domain of the check? -/
+  divOk : K → K → Bool
+
+def small (x : Int) : Bool := -100000 ≤ x && x ≤ 100000
+
+def intCodec : Codec Int where
+  w := 1
+  dec := fun l => match l with | [x] => if small x then some x else none | _ => none
+  enc := fun x => [x]
+  conj := id
+  divOk := fun a k => k != 0 && a % k == 0
+
+/-- see `smithExact` in the harness -/
+def smithExact (c d : Int) : Bool :=
+  let a := c.natAbs
+  let b := d.natAbs
+  let mx := max a b
+  let mn := min a b
+  mn == 0 || mn == mx || (mx &&& (mx - 1)) == 0
+
+def gintCodec : Codec GInt where
+  w := 2
+  dec := fun l => match l with | [x, y] => if small x && small y then some ⟨x, y⟩ else none | _ => none
+  enc := fun z => [z.re, z.im]
+  conj := fun z => ⟨z.re, -z.im⟩
+  divOk := fun a k =>
+    let den := k.re * k.re + k.im * k.im
+    den != 0 && smithExact k.re k.im && (a.re * k.re + a.im * k.im) % den == 0 && (a.im * k.re - a.re * k.im) % den == 0
+
+def fpCodec : Codec Fp where
+  w := 1
+  dec := fun l => match l with | [x] => if 0 ≤ x && x < P then some ⟨x.toNat⟩ else none | _ => none
+  enc := fun x => [x.v]
+  conj := id
+  divOk := fun _ k => k.v != 0
+
+/-! ### parsing -/
+
+def chunks {α} : Nat → Nat → List α → List (List α)
+  | 0, _, _ => []
+  | f+1, w, l => if l.isEmpty then [] else l.take w :: chunks f w (l.drop w)
+
+def decList {K} (F : Codec K) (tok : String) : Option (List K) := do
+  let raw ← parseIntList? tok
+  if F.w = 0 || raw.length % F.w != 0 then none
+  else (chunks (raw.length + 1) F.w raw).mapM F.dec
+
+def encList {K} (F : Codec K) (l : List K) : String := showList (l.flatMap F.enc)
+
+structure PMat (K : Type) where
+  rep : String
+  base : String
+  tv : Bool
+  tc : Bool
+  r : Nat
+  c : Nat
+  e : List K
+
+structure PVec (K : Type) where
+  kind : String
+  n : Nat
+  e : List K
+
+def maxDim (base : String) : Nat := if base == "DM" then 6 else if base == "SV" then 1 else 4
+
+def parseMat {K} (F : Codec K) : List String → Option (PMat K × List String)
+  | rep :: rs :: cs :: l :: rest => do
+    let (base, tv, tc) :=
+      if rep.length == 4 && rep.startsWith "TV" then ((rep.drop 2).toString, true, false)
+      else if rep.length == 4 && rep.startsWith "TC" then ((rep.drop 2).toString, false, true)
+      else (rep, false, false)
+    if !(base == "FM" || base == "DM" || base == "DG" || base == "SV") then none
+    if tc && base == "SV" then none
+    let r ← rs.toNat?
+    let c ← cs.toNat?
+    let mx := maxDim base
+    if r < 1 || c < 1 || r > mx || c > mx then none
+    if base == "DG" && r != c then none
+    let e ← decList F l
+    if e.length != (if base == "DG" then r else r * c) then none
+    some (⟨rep, base, tv, tc, r, c, e⟩, rest)
+  | _ => none
+
+def parseVec {K} (F : Codec K) : List String → Option (PVec K × List String)
+  | kind :: ns :: l :: rest => do
+    if !(kind == "FV" || kind == "DV" || kind == "SC") then none
+    let n ← ns.toNat?
+    if n < 1 || n > (if kind == "DV" then 6 else if kind == "SC" then 1 else 4) then none
+    let e ← decList F l
+    if e.length != n then none
+    some (⟨kind, n, e⟩, rest)
+  | _ => none
+
+def parseScalar {K} (F : Codec K) : List String → Option (K × List String)
+  | l :: rest => do
+    let e ← decList F l
+    match e with
+    | [s] => some (s, rest)
+    | _ => none
+  | _ => none
+
+/-! ### from operands to the model's objects and back -/
+
+section
+variable {K : Type} [Zero K] [Add K] [Sub K] [Mul K] [Neg K] [Div K] [DecidableEq K]
+
+def vecFn (e : List K) : Nat → K := fun i => e.getD i 0
+def listOf (n : Nat) (f : Nat → K) : List K := (List.range n).map f
+
+/-- the stored matrix as a full matrix (DG expanded) -/
+def storedFull (m : PMat K) : Mat K :=
+  if m.base == "DG" then ⟨m.r, m.r, fun i j => if i = j then m.e.getD i 0 else 0⟩
+  else ⟨m.r, m.c, fun i j => m.e.getD (i * m.c + j) 0⟩
+
+/-- the stored object as a representation of the model.  DiagonalMatrix<K,1> IS a FieldMatrix<K,1,1>. -/
+def storedRep (m : PMat K) : Rep K :=
+  if m.base == "DG" && m.r != 1 then .diag m.r (vecFn m.e)
+  else if m.base == "SV" then .scalar (m.e.getD 0 0)
+  else .full (storedFull m)
+
+/-- the operand as it is meant: plain, transposed copy (`transposed()`), or transposed view -/
+def operandRep (m : PMat K) : Rep K :=
+  if m.tv then .transposed (storedRep m)
+  else if m.tc then
+    (if m.base == "DG" then storedRep m          -- DiagonalMatrix::transposed returns *this
+     else .full (transposed (storedFull m)))
+  else storedRep m
+
+def matList (A : Mat K) : List K :=
+  (List.range A.rows).flatMap fun i => (List.range A.cols).map fun j => A.e i j
+
+def showMat (F : Codec K) (A : Mat K) : String :=
+  toString A.rows ++ " " ++ toString A.cols ++ " " ++ encList F (matList A)
+
+def showB (b : Bool) : String := if b then "true" else "false"
+
+def kname? : String → Option KName
+  | "mv" => some .mv | "mtv" => some .mtv | "umv" => some .umv | "umtv" => some .umtv | "umhv" => some .umhv
+  | "mmv" => some .mmv | "mmtv" => some .mmtv | "mmhv" => some .mmhv | "usmv" => some .usmv
+  | "usmtv" => some .usmtv | "usmhv" => some .usmhv | _ => none
+
+def isTransposedKernel : KName → Bool
+  | .mv | .umv | .mmv | .usmv => false
+  | _ => true
+
+/-- is the operand's C++ type `FieldMatrix` (plain or transposed copy of one)? -/
+def isFM (m : PMat K) : Bool := m.base == "FM" && !m.tv
+def is11 (m : PMat K) : Bool := m.r == 1 && m.c == 1
+
+def handleKernel (F : Codec K) (k : KName) (toks : List String) : String :=
+  match parseMat F toks with
+  | none => "bad-op"
+  | some (A, t1) =>
+  match parseScalar F t1 with
+  | none => "bad-op"
+  | some (alpha, t2) =>
+  match parseVec F t2 with
+  | none => "bad-op"
+  | some (x, t3) =>
+  match parseVec F t3 with
+  | none => "bad-op"
+  | some (y, t4) =>
+    if !t4.isEmpty then "bad-op" else
+    let rep := operandRep A
+    let tr := isTransposedKernel k
+    if x.n != (if tr then rep.rows else rep.cols) || y.n != (if tr then rep.cols else rep.rows) then "bad-op"
+    else if !offers k rep then "bad-op"
+    else encList F (listOf y.n (repKernel F.conj k rep alpha (vecFn x.e) ⟨y.n, vecFn y.e⟩).get)
+
+def handleMul (F : Codec K) (toks : List String) : String :=
+  match parseMat F toks with
+  | none => "bad-op"
+  | some (A, t1) =>
+  match parseMat F t1 with
+  | none => "bad-op"
+  | some (B, t2) =>
+    if !t2.isEmpty then "bad-op" else
+    let ra := operandRep A
+    let rb := operandRep B
+    if ra.cols != rb.rows then "bad-op" else
+    if A.tv then "bad-op"
+    else if B.tv then
+      -- B is a TransposedMatrixWrapper around storedRep B
+      if isFM A && B.base != "DM" then
+        -- fmatrix.hh FieldMatrix * OtherMatrix (the wrapper of a static-size matrix has static size)
+        showMat F (mulFmOther F.conj (if ra.rows == 1 && ra.cols == 1 then Gen.fm11MulOther else Gen.fmMulOther) ra.toFull rb)
+      else if (isFM A || (A.base == "DM" && !A.tv)) then
+        -- transpose.hh friend operator*, dynamic-size branch
+        showMat F (mulTransposedView F.conj Gen.twMulDynamic ra.toFull (storedRep B))
+      else "bad-op"
+    else if isFM A && isFM B then
+      showMat F (if ra.rows == 1 && ra.cols == 1 then matmul11 ra.toFull rb.toFull else matmul ra.toFull rb.toFull)
+    else if isFM A && (B.base == "DG" || B.base == "SV") then
+      showMat F (mulFmOther F.conj (if ra.rows == 1 && ra.cols == 1 then Gen.fm11MulOther else Gen.fmMulOther) ra.toFull rb)
+    else if (A.base == "DG" || A.base == "SV") && isFM B then
+      showMat F (mulOtherFm F.conj (if rb.rows == 1 && rb.cols == 1 then Gen.otherMulFm11 else Gen.otherMulFm) ra rb.toFull)
+    else if A.base == "DG" && B.base == "DG" then
+      showMat F (Rep.toFull (.diag A.r (mulDiag (vecFn A.e) (vecFn B.e))))
+    else "bad-op"
+
+def handleMulInPlace (F : Codec K) (op : String) (toks : List String) : String :=
+  match parseMat F toks with
+  | none => "bad-op"
+  | some (A, t1) =>
+  match parseMat F t1 with
+  | none => "bad-op"
+  | some (M, t2) =>
+    if !t2.isEmpty || A.tv || A.tc || M.tv || M.tc || A.base == "DG" || M.base == "DG" then "bad-op" else
+    let a := storedFull A
+    let m := storedFull M
+    let fm11 := A.base == "FM" && is11 A
+    match op with
+    | "leftmultiply" =>
+      if m.rows != m.cols || m.cols != a.rows then "bad-op" else showMat F (leftmultiply a m)
+    | "rightmultiply" =>
+      if m.rows != m.cols || m.rows != a.cols then "bad-op"
+      else showMat F (if fm11 then rightmultiply11 a m else rightmultiply a m)
+    | "leftmultiplyany" =>
+      if A.base != "FM" || M.base != "FM" || m.cols != a.rows then "bad-op"
+      else showMat F (if fm11 then leftmultiplyany11 a m else leftmultiplyany a m)
+    | "rightmultiplyany" =>
+      if A.base != "FM" || M.base != "FM" || m.rows != a.cols then "bad-op"
+      else showMat F (if fm11 then rightmultiplyany11 a m else rightmultiplyany a m)
+    | "multmatrix" =>
+      if A.base != "FM" || M.base != "FM" || m.rows != a.cols then "bad-op" else showMat F (matmul a m)
+    | _ => "bad-op"
+
+def handleUnaryMat (F : Codec K) (op : String) (toks : List String) : String :=
+  match parseMat F toks with
+  | none => "bad-op"
+  | some (A, t1) =>
+    if !t1.isEmpty then "bad-op" else
+    match op with
+    | "transposed" =>
+      let rep := operandRep A
+      match rep with
+      | .full m => showMat F (transposed m)
+      | .transposed r => showMat F (transposeMat (Rep.toFull (.transposed r)))   -- asDense() of the view, transposed back
+      | r => showMat F r.transposedFull
+    | "multtm" =>
+      if A.base != "FM" || A.tv || A.tc then "bad-op" else showMat F (multTransposedMatrix (storedFull A))
+    | _ => "bad-op"
+
+def allDivOk (F : Codec K) (l : List K) (k : K) : Bool := l.all fun a => F.divOk a k
+
+def handleMatVS (F : Codec K) (op : String) (toks : List String) : String :=
+  let two := ["madd", "msub", "mplus", "mminus", "maxpy", "meq", "mne"].contains op
+  let sc := ["mscale", "mdiv", "mtimes", "mltimes", "mover", "maxpy"].contains op
+  match parseMat F toks with
+  | none => "bad-op"
+  | some (A, t1) =>
+  let sres := if sc then parseScalar F t1 else some (0, t1)
+  match sres with
+  | none => "bad-op"
+  | some (s, t2) =>
+  let bres : Option (Option (PMat K) × List String) :=
+    if two then (parseMat F t2).map fun (b, t) => (some b, t) else some (none, t2)
+  match bres with
+  | none => "bad-op"
+  | some (B?, t3) =>
+    if !t3.isEmpty || A.tv || A.tc then "bad-op" else
+    let a := storedFull A
+    let diag := A.base == "DG"
+    match B? with
+    | some B =>
+      if B.tv || B.tc || A.r != B.r || A.c != B.c || (diag != (B.base == "DG")) then "bad-op" else
+      let b := storedFull B
+      -- DiagonalMatrix works on its diagonal vector
+      let dres (f : (Nat → K) → (Nat → K) → Nat → K) : String :=
+        showMat F (Rep.toFull (.diag A.r (f (vecFn A.e) (vecFn B.e))))
+      match op with
+      | "madd" => if diag then dres vadd else showMat F (madd a b)
+      | "msub" => if diag then dres vsub else showMat F (msub a b)
+      | "mplus" => if isFM A && isFM B then showMat F (madd a b) else "bad-op"
+      | "mminus" => if isFM A && isFM B then showMat F (msub a b) else "bad-op"
+      | "maxpy" => if diag then "bad-op" else showMat F (maxpy a s b)
+      | "meq" => showB (if diag then veq A.r (vecFn A.e) (vecFn B.e) else meq a b)
+      | "mne" => showB (!(if diag then veq A.r (vecFn A.e) (vecFn B.e) else meq a b))
+      | _ => "bad-op"
+    | none =>
+      let dres (f : (Nat → K) → K → Nat → K) : String :=
+        showMat F (Rep.toFull (.diag A.r (f (vecFn A.e) s)))
+      match op with
+      | "mscale" => if diag then dres vscale else showMat F (mscale a s)
+      | "mdiv" =>
+        if !allDivOk F A.e s then "inexact"
+        else if diag then dres vdiv else showMat F (mdiv a s)
+      | "mtimes" => if isFM A then showMat F (mscale a s) else "bad-op"
+      | "mltimes" => if isFM A then showMat F (mscaleL s a) else "bad-op"
+      | "mover" =>
+        if !isFM A then "bad-op" else if !allDivOk F A.e s then "inexact" else showMat F (mdiv a s)
+      | "mneg" => if diag || A.base == "SV" then "bad-op" else showMat F (mneg a)
+      | _ => "bad-op"
+
+def twoVecOps : List String :=
+  ["vadd", "vsub", "vplus", "vminus", "vaxpy", "veq", "vne", "vdotT", "vdot", "fdot", "fdotT"]
+
+def handleVec (F : Codec K) (op : String) (toks : List String) : String :=
+  let two := twoVecOps.contains op
+  let sc := (!two && op != "vneg") || op == "vaxpy"
+  match parseVec F toks with
+  | none => "bad-op"
+  | some (a, t1) =>
+  let sres := if sc then parseScalar F t1 else some (0, t1)
+  match sres with
+  | none => "bad-op"
+  | some (s, t2) =>
+  let bres : Option (Option (PVec K) × List String) :=
+    if two then (parseVec F t2).map fun (b, t) => (some b, t) else some (none, t2)
+  match bres with
+  | none => "bad-op"
+  | some (b?, t3) =>
+    if !t3.isEmpty then "bad-op" else
+    let n := a.n
+    let x := vecFn a.e
+    let out (f : Nat → K) : String := encList F (listOf n f)
+    match b? with
+    | some b =>
+      if b.n != n then "bad-op" else
+      let y := vecFn b.e
+      if a.kind == "SC" then
+        (if b.kind != "SC" then "bad-op" else
+         match op with
+         | "fdot" => encList F [vdot F.conj 1 x y]
+         | "fdotT" => encList F [vdotT 1 x y]
+         | _ => "bad-op")
+      else if b.kind == "SC" then "bad-op" else
+      match op with
+      | "vadd" | "vplus" => out (vadd x y)
+      | "vsub" | "vminus" => out (vsub x y)
+      | "vaxpy" => out (vaxpy x s y)
+      | "veq" => showB (veq n x y)
+      | "vne" => showB (!veq n x y)
+      | "vdotT" | "fdotT" => encList F [vdotT n x y]
+      | "vdot" | "fdot" => encList F [vdot F.conj n x y]
+      | _ => "bad-op"
+    | none =>
+      if a.kind == "SC" then "bad-op" else
+      let fv := a.kind == "FV"
+      let one := fv && n == 1
+      match op with
+      | "vneg" => out (vneg x)
+      | "vadds" => out (vaddScalar x s)
+      | "vsubs" => out (vsubScalar x s)
+      | "vscale" => out (vscale x s)
+      | "vdiv" => if !allDivOk F a.e s then "inexact" else out (vdiv x s)
+      | "vtimes" => if fv then out (vscale x s) else "bad-op"
+      | "vltimes" => if fv then out (vscaleL s x) else "bad-op"
+      | "vover" => if !allDivOk F a.e s then "inexact" else if fv then out (vdiv x s) else "bad-op"
+      | "v1_plus_s" => if one then out (vaddScalar x s) else "bad-op"
+      | "s_plus_v1" => if one then out (vadd (fun _ => s) x) else "bad-op"
+      | "v1_minus_s" => if one then out (vsubScalar x s) else "bad-op"
+      | "s_minus_v1" => if one then out (vsub (fun _ => s) x) else "bad-op"
+      | "v1_times_s" => if one then out (vscale x s) else "bad-op"
+      | "s_times_v1" => if one then out (vscaleL s x) else "bad-op"
+      | "v1_over_s" => if !allDivOk F a.e s then "inexact" else if one then out (vdiv x s) else "bad-op"
+      | "s_over_v1" =>
+        if !(a.e.all fun v => F.divOk s v) then "inexact" else if one then out (fun i => s / x i) else "bad-op"
+      | "v1_eq_s" => if one then showB (veq 1 x (fun _ => s)) else "bad-op"
+      | "s_ne_v1" => if one then showB (!veq 1 (fun _ => s) x) else "bad-op"
+      | _ => "bad-op"
+
+def matVSOps : List String :=
+  ["madd", "msub", "mplus", "mminus", "mscale", "mdiv", "mtimes", "mltimes", "mover", "maxpy", "mneg", "meq", "mne"]
+
+def handleK (F : Codec K) (op : String) (toks : List String) : String :=
+  match kname? op with
+  | some k => handleKernel F k toks
+  | none =>
+    if op == "mul" then handleMul F toks
+    else if ["leftmultiply", "rightmultiply", "leftmultiplyany", "rightmultiplyany", "multmatrix"].contains op then
+      handleMulInPlace F op toks
+    else if op == "transposed" || op == "multtm" then handleUnaryMat F op toks
+    else if matVSOps.contains op then handleMatVS F op toks
+    else handleVec F op toks
+
+end
+
+def handle (line : String) : String :=
+  match tokens line with
+  | f :: op :: rest =>
+    if rest.isEmpty then "bad-op" else
+    match f with
+    | "Z" | "D" => handleK intCodec op rest
+    | "C" => handleK gintCodec op rest
+    | "P" => handleK fpCodec op rest
+    | _ => "bad-op"
+  | _ => "bad-op"
+
+end C01Drv
+
+def main : IO Unit := DV.runDriver C01Drv.handle
